@@ -372,11 +372,20 @@ def msg(*fields):
     return m
 
 
+# kinds related to / easily confused with the three a client can enable: offered in every handler state
+NEAR_KINDS = ["forwarded-streamlocal@openssh.com", "direct-streamlocal@openssh.com", "direct-tcpip", "session",
+              "auth-agent", "auth-agent-req@openssh.com", "auth-agent@openssh.org", "x11-req", "X11",
+              "x11@openssh.com", "forwarded-tcpip@openssh.com", "forwarded-tcpip ", "tcpip-forward",
+              "tun@openssh.com"]
+
+
 def open_payload(kind, chanid, rng):
     extra = []
-    if kind == "x11":
+    if kind.lower().startswith("x11"):
         extra = ["10.0.0.7", 6010]
-    elif kind in ("forwarded-tcpip", "direct-tcpip"):
+    elif "streamlocal" in kind:
+        extra = ["/run/user/1000/fwd.sock", ""]          # socket path, reserved string (OpenSSH PROTOCOL 2.4)
+    elif "tcpip" in kind:
         extra = ["127.0.0.1", 8022, "10.0.0.9", 40000]
     elif rng.random() < 0.5:
         extra = ["junk", rng.randrange(1 << 16), "more", rng.randrange(1 << 16)]
@@ -429,7 +438,42 @@ def enabled_after(hist):
     return {AGENT: agent, "x11": x11, "forwarded-tcpip": tcp}
 
 
-def drive_open(ctx, hist, custom, kinds, cases, server=None, schedule="sync", reuse=False):
+def inbound_globals(ctx, rig, hist, names, gcases):
+    """Server-sent global requests in the handler state the history left behind: each is refused
+    (REQUEST_FAILURE exactly when a reply is wanted) and changes nothing."""
+    rng = ctx.rng
+    for kind in names:
+        want = rng.random() < 0.7
+        before = rig.handler_state()
+        rig.sent.clear()
+        case = {"history": [EVENT_NAMES[c] for c in hist], "global_request": kind, "want_reply": want,
+                "server_mode": False, "handler_state_before": before, "schedule": rig.schedule,
+                "same_channel": rig.reuse_channel}
+        try:
+            rig.t._parse_global_request(msg(kind, want, "127.0.0.1", 8022))
+        except Exception as e:
+            ctx.fail("client-global-request-raises", "Transport._parse_global_request raised instead of refusing",
+                     case=case, observed=repr(e))
+            continue
+        types = [p for p, _ in rig.sent]
+        after = rig.handler_state()
+        ctx.count(("global-in-state", tuple(hist), kind, want), nontrivial=True, kind="global-client-in-state")
+        if 81 in types:
+            ctx.fail("client-approved-global-request",
+                     "a client-mode transport approved a global request from the server", case=case,
+                     observed={"sent": types, "handler_state_after": after})
+        elif types != ([82] if want else []):
+            ctx.fail("client-global-request-reply", "global request not answered with REQUEST_FAILURE exactly when "
+                     "a reply was wanted", case=case, observed=types)
+        if after != before:
+            ctx.fail("global-request-changed-client-state",
+                     "a server-sent global request changed which channel kinds the client accepts", case=case,
+                     observed={"handler_state_after": after})
+        obs = [0, types[0] if types else -1] + ([len(types)] if len(types) > 1 else [])
+        gcases.append(((False, list(kind.encode("utf-8")), want, True), obs, case))
+
+
+def drive_open(ctx, hist, custom, kinds, cases, server=None, schedule="sync", reuse=False, globals_=(), gcases=None):
     """Replay `hist` on a fresh transport, then offer each kind; returns nothing, appends cases."""
     rng = ctx.rng
     server_mode = server is not None
@@ -437,6 +481,8 @@ def drive_open(ctx, hist, custom, kinds, cases, server=None, schedule="sync", re
     try:
         for c in hist:
             rig.apply(c, custom)
+        if globals_ and not server_mode:
+            inbound_globals(ctx, rig, hist, globals_, gcases if gcases is not None else [])
         state = rig.handler_state()
         rig.spy_handlers()
         en = enabled_after(hist)
@@ -722,7 +768,11 @@ def run(ctx):
                 "granted/refused; channel requests re-use the same channel while it is open, so every enabling "
                 "request also follows an earlier success and an earlier refusal on the same object), each exhaustive history under two deterministic schedules "
                 "(reply processed before the caller waits; reply processed by a second thread that is descheduled "
-                "right after Event.set() so that the waiter runs first), plus forwards whose reply arrives only "
+                "right after Event.set() so that the waiter runs first); in the handler state each history leaves, the "
+                "three forwardable kinds plus 14 related / near-miss kinds (streamlocal, direct-*, agent and x11 "
+                "variants) are offered and the well-known server global requests (cancel-tcpip-forward, tcpip-forward, "
+                "keepalive@, hostkeys-, no-more-sessions@, streamlocal) are sent - full lists after short histories, "
+                "rotating after longer ones - and must be refused without changing the handler state, plus forwards whose reply arrives only "
                 "after a re-key has completed (real _parse_newkeys on the rig after 8 kinds of earlier replies; one "
                 "end-to-end run on a real loopback pair with a server-initiated re-key and a withheld denial): exhaustive up to length 2 "
                 "(quick) / 3 (thorough) plus seeded random ones up to length 10, each with default or custom "
@@ -752,17 +802,23 @@ def run(ctx):
                            for _ in range(rng.randrange(3, 11))))
     # ---- 1. implementation-level oracles (never depend on the translator / model) ----------
     cases = []
+    gcases = []
     for i, h in enumerate(hists):
         custom = rng.random() < 0.5
-        kinds = list(KINDS_ENABLED) + ([rng.choice(other)] if len(h) > 1 else other) + \
-            [rand_name(rng, list(KINDS_ENABLED) + other)]
+        # every related / near-miss kind and every well-known global-request name in every handler state: the
+        # full lists after the short histories, a rotating selection after the others
+        full = len(h) <= 1 or (ctx.thorough and len(h) <= 2)
+        kinds = list(KINDS_ENABLED) + (NEAR_KINDS if full else [NEAR_KINDS[(i + j) % len(NEAR_KINDS)] for j in (0, 5)]) \
+            + [rand_name(rng, list(KINDS_ENABLED) + other)]
+        gnames = (GLOBAL_NAMES if full else [GLOBAL_NAMES[(i + j) % len(GLOBAL_NAMES)] for j in (0, 4)]) \
+            + [rand_name(rng, GLOBAL_NAMES)]
         # the exhaustive histories run under both schedules with all channel requests on the same channel (so
         # each follows an earlier success / refusal there); the random ones under a random schedule / re-use
         # (length-3 histories, thorough tier only, alternate between the two schedules to stay within budget)
         for schedule in (SCHEDULES if 0 < i < nexh and len(h) <= 2 else
                          [SCHEDULES[i % 2]] if 0 < i < nexh else [rng.choice(SCHEDULES)]):
             drive_open(ctx, h, custom, kinds, cases, schedule=schedule,
-                       reuse=True if 0 < i < nexh else rng.random() < 0.5)
+                       reuse=True if 0 < i < nexh else rng.random() < 0.5, globals_=gnames, gcases=gcases)
     # contrast: a server-mode transport with a server object accepts / rejects by the object's answer
     # (the three forwardable kinds are left out here: a server-mode transport whose server object approves
     # them calls the unset handler - TypeError - which is a server-side matter outside this property)
@@ -771,7 +827,6 @@ def run(ctx):
     live_rekey_scenario(ctx)
     rcases = []
     drive_requests(ctx, rcases, 120 if ctx.thorough else 30)
-    gcases = []
     drive_globals(ctx, gcases, 80 if ctx.thorough else 20)
     if cases:
         ctx.sample({"channel_open": {"case": cases[len(cases) // 2][2], "impl": cases[len(cases) // 2][1]}})
@@ -792,6 +847,14 @@ def run(ctx):
 def model_compare(ctx, fn, typ, cases, what):
     if ctx.proof is None or not ctx.proof.model_ok or not cases:
         return
+    # identical (input, observed) pairs are evaluated once (the model does not see history for requests)
+    seen, uniq = set(), []
+    for c in cases:
+        k = (repr(c[0]), repr(c[1]))
+        if k not in seen:
+            seen.add(k)
+            uniq.append(c)
+    cases = uniq
     try:
         bad = ctx.model_mismatches(fn, typ, [(coq(c), o) for c, o, _ in cases], shard=400)
     except Exception as e:
@@ -809,6 +872,11 @@ def replay(ctx, rep):
     if case.get("scenario") == "live-rekey-while-forward-pending":
         live_rekey_scenario(ctx)
         live_rekey_scenario(ctx)
+    elif "global_request" in case and "history" in case:
+        hist = tuple(EVENT_NAMES.index(x) for x in case["history"])
+        for _ in range(2):
+            drive_open(ctx, hist, False, list(KINDS_ENABLED), [], schedule=case.get("schedule", "sync"),
+                       reuse=bool(case.get("same_channel")), globals_=[case["global_request"]], gcases=[])
     elif "kind" in case and "history" in case:
         hist = tuple(EVENT_NAMES.index(x) for x in case["history"])
         for _ in range(2):
